@@ -1014,13 +1014,20 @@ class Z80:
                 cyc.append((hl, 3))
                 self.wr(hl, v)
                 self.set_hl(hl + inc)
+                c0 = self.c
                 self.b = (self.b - 1) & 255
-                self.f = (self.f & ~ZF & 0xFF) | (ZF if self.b == 0 else 0)
-                s.fmask = ZF
+                # Zilog: Z from B-1, N set, C "not affected", S/H/P-V unknown. The agreed behaviour (Young, "The
+                # Undocumented Z80 Documented", 4.3): S,Z from B-1; N = bit 7 of the byte; k = byte + ((C +/- 1) & 255);
+                # H = C = k > 255; P/V = parity((k & 7) xor B)
+                k = v + ((c0 + inc) & 255)
+                self.f = ((self.b & SF) | (ZF if self.b == 0 else 0) | (NF if v & 0x80 else 0) | ((HF | CF) if k > 255 else 0)
+                          | (PF if bin((k & 7) ^ self.b).count('1') % 2 == 0 else 0) | (self.f & (XF | 0x20)))
+                s.fmask = SF | ZF | HF | PF | NF | CF
                 t = 16
                 if rep:
                     s.taken = self.b != 0
                     if s.taken:
+                        s.fmask = SF | ZF | NF | CF      # H and P/V of an instruction that repeats are adjusted further (not modelled)
                         t = 21
                         s.alt_cycles = list(cyc)
                         self._rep(cyc, hl, 5)
@@ -1037,12 +1044,16 @@ class Z80:
                 s.ports.append(('w', port, v))
                 self.outp(port, v)
                 self.set_hl(hl + inc)
-                self.f = (self.f & ~ZF & 0xFF) | (ZF if self.b == 0 else 0)
-                s.fmask = ZF
+                # as for INI/IND, with k = byte + L (after the update of HL)
+                k = v + self.l
+                self.f = ((self.b & SF) | (ZF if self.b == 0 else 0) | (NF if v & 0x80 else 0) | ((HF | CF) if k > 255 else 0)
+                          | (PF if bin((k & 7) ^ self.b).count('1') % 2 == 0 else 0) | (self.f & (XF | 0x20)))
+                s.fmask = SF | ZF | HF | PF | NF | CF
                 t = 16
                 if rep:
                     s.taken = self.b != 0
                     if s.taken:
+                        s.fmask = SF | ZF | NF | CF
                         t = 21
                         s.alt_cycles = list(cyc)
                         self._rep(cyc, port, 5)                                   # BC after the decrement
